@@ -163,7 +163,7 @@ func c12Main(args []string) int {
 			return
 		}
 		doc := c12HTML(&s)
-		pages, err := drv.Layout(doc, &drv.Opts{Engine: c12Engine})
+		pages, r, err := drv.RenderPages(doc, &drv.Opts{Engine: c12Engine})
 		if err != nil {
 			out.Fatal(err.Error())
 			return
@@ -286,11 +286,6 @@ func c12Main(args []string) int {
 		out.Emit(map[string]interface{}{"doc": s.Doc, "H": s.H, "Hfirst": s.Hfirst, "pages": obs, "same": same})
 
 		// ---- C02: drawing
-		_, r, err := drv.Render(doc, &drv.Opts{Engine: c12Engine})
-		if err != nil {
-			out.Fatal(err.Error())
-			return
-		}
 		drawn := make([][]string, len(obs))
 		for _, e := range r.Evs {
 			if e.Op != "DrawText" {
